@@ -578,6 +578,16 @@ func c05Cursor(c *core.Ctx) {
 	}
 }
 
+// c05LastBlock: the block a syncer resumes after is the greatest block number its store recorded.
+func c05LastBlock(c *core.Ctx) {
+	num := [][]string{{"NUM"}}
+	checkOrdered(c, "C05-lastblock", []orderedSpec{
+		{"bridgesync", "processor", "getLastProcessedBlockWithTx", "BLOCK", "DESC", nil, num},
+		{"l1infotreesync", "processor", "getLastProcessedBlockWithTx", "BLOCK", "DESC", nil, num},
+		{"lastgersync", "processor", "GetLastProcessedBlock", "BLOCK", "DESC", nil, num},
+	})
+}
+
 func init() {
 	_ = types.Typ
 	register(&Property{
@@ -588,6 +598,7 @@ func init() {
 			{ID: "C05-conflate", Floor: 4, Run: c05Conflate, Text: "[DOM] nil result of the fetch only on cancellation edges"},
 			{ID: "C05-group", Floor: 5, Run: c05Group, Text: "[DOM]+[PROV] EVMBlock creation dominated by header.Hash == log.BlockHash; Removed/topic filters"},
 			{ID: "C05-retry", Floor: 4, Run: c05Retry, Text: "[DOM]+flag threading: handleNewBlock returns only after success / cancel / ErrInconsistentState"},
+			{ID: "C05-lastblock", Floor: 3, Run: c05LastBlock, Text: "SQL: the resume point of each store is the greatest recorded block number"},
 			{ID: "C05-restart", Floor: 3, Run: c05Restart, Text: "[PROV]+[DOM] Download(from = lastProcessed+1); reset after reorg"},
 			{ID: "C05-cursor", Floor: 1, Run: c05Cursor, Text: "[CURSOR] lower bound of each fetch is the loop-carried cursor"},
 			{ID: "C05-range", Floor: 4, Run: c05Range, Text: "[PROV] the requested range is the range asked for, also on hash-mismatch retries; filter query fields"},
